@@ -8,7 +8,7 @@ R: TLC emits the instant pairs (expected renderings and comparison results) and 
    the real timestamp class must render and compare as computed (at several epochs), the real duration class must
    round-trip its own text and parse the spec's text to the same duration.
 V: for real zones the harness reads the installed tz database with its own TZif reader and probes instants at
-   transition + {-7201 s .. +7201 s} (x fractions .000 / .4996 / .9996, precisions 3 and 6): render with the generic zone
+   transition + {-7201 s .. +7201 s} (x fractions .000 / .4996 / .9996 / ..., precisions 0..6): render with the generic zone
    name, parse back; TLC (TimesTrace) decides from the transition's two offsets whether the instant must come back
    or the wall-clock time is ambiguous and must be rejected -- never mapped to another instant.
 """
@@ -41,7 +41,7 @@ def main(ctx):
         ctx.machinery.append("no vectors from MC_Times")
         return
     ev.rule = ("cases: duration vectors (product of boundary values per unit), instant pairs of a 2.6 ms window at 3-5 epochs, "
-               "zone probes (zone x DST transition x 18 offsets x 3 fractions x precisions 3/6).  Non-trivial: durations "
+               "zone probes (zone x DST transition x 18 offsets x 11 fraction/precision pairs over precisions 0..6, incl. fractions that round up into the next second at that precision).  Non-trivial: durations "
                "with several units or sub-second parts; pairs within 1.1 ms of each other; probes within one offset "
                "difference of a transition.")
     ev.assumptions = ["exact half-way rounding ties are excluded (binary floating point may go either way)",
@@ -81,7 +81,7 @@ def main(ctx):
         trs = trs[-8:] if ctx.quick else trs[-40:]
         for (T, o0, o1) in trs:
             for d in DELTAS:
-                for ms, prec in ((0, 3), (499.6, 3), (999.6, 3), (123.456, 6)):
+                for ms, prec in ((0, 3), (499.6, 3), (999.6, 3), (123.456, 6), (960.0, 1), (40.0, 1), (996.0, 2), (4.0, 2), (0.0, 0), (999.9996, 6), (99.996, 4)):
                     zjobs.append((z, T, o0, o1, d, ms, prec))
     zres = core.pmap(timeslib.zone_probe, zjobs, chunksize=64)
     fd, path = tempfile.mkstemp(prefix="times_", suffix=".ndjson")
